@@ -25,7 +25,14 @@ def pytest_configure(config):  # noqa: ARG001
     names = [n for n in os.environ.get("VMON_PLUGIN_CONTRACTS", "").split(",") if n] or None
     _CTX = Ctx(prop, "thorough", int(os.environ.get("VERIF_SEED", "0")), Findings())
     _CTX.case = ("suite-under-contract", os.environ.get("VMON_PLUGIN_TESTS", ""))
-    contracts.install(_CTX, names)
+    from . import hcontracts
+
+    helper = [n for n in (names or []) if n in hcontracts.TARGETS]
+    index = [n for n in (names or []) if n not in hcontracts.TARGETS]
+    if index or not helper:
+        contracts.install(_CTX, index or None)
+    if helper:
+        hcontracts.install(_CTX, helper)
 
 
 def pytest_sessionfinish(session, exitstatus):  # noqa: ARG001
